@@ -246,11 +246,14 @@ class AbstractFieldFormat(object):
 
         :raises cutplace.errors.FieldValueError: if ``value`` is invalid
         """
-        self.validate_characters(value)
         if self.data_format.format == data.FORMAT_FIXED:
-            possibly_stripped_value = value.strip()
+            # Only blanks are padding, other white space such as tabs is data.
+            possibly_stripped_value = value.strip(" ")
         else:
             possibly_stripped_value = value
+        if possibly_stripped_value:
+            # Note: a fixed value consisting only of blanks is an empty value even if blanks are no allowed characters.
+            self.validate_characters(value)
         self.validate_empty(possibly_stripped_value)
         self.validate_length(value)
         if possibly_stripped_value:
